@@ -257,6 +257,11 @@ def _decomp_or(c, p, out):
         for x in c.a[1]:
             _decomp_or(x, p, out)
         return
+    if c.op == "bin" and c.a[0] in ("|", "&") and all(z.op in ("cmp", "bin", "call", "un") for z in c.a[1:]):
+        # element-wise combination of Boolean arrays written with operators
+        for x in c.a[1:]:
+            _decomp_or(x, p, out)
+        return
     out.append((c, p))
 
 
@@ -583,6 +588,16 @@ def _proves_two(den_arg, pc):
             k = c.a[2].a[0] if c.a[2].op == "const" and isinstance(c.a[2].a[0], (int, float)) else None
             if cf is not None and k is not None and cf[1] is den_arg and ((c.a[0] == "<" and k >= 2) or (c.a[0] == "<=" and k >= 1)):
                 return "path has not (%s)" % tm.show(c, 3)
+    # the differenced array is assembled from at least two scalars: np.hstack([a, xs, b]) / np.concatenate(([a], xs, [b]))
+    if den_arg.op == "call" and call_name(den_arg) in ("np.hstack", "np.concatenate", "np.r_") and den_arg.a[1] and den_arg.a[1][0].op in ("list", "tuple"):
+        singles = 0
+        for z in den_arg.a[1][0].a:
+            if z.op in ("list", "tuple") and len(z.a) == 1:
+                singles += 1
+            elif z.op in ("iter", "const") or (z.op == "sub" and z.a[0].op == "iter"):
+                singles += 1
+        if singles >= 2:
+            return "the differenced array is built from at least two single values (%d) plus an array" % singles
     # sentinel form: the reduced array indexes an array that had a value appended at both ends
     apps = [x for x in tm.walk(den_arg) if x.op == "call" and call_name(x) == "np.append"]
     if len(apps) >= 2 and any(any(y is x for y in tm.walk(a.a[1][0])) for a in apps for x in apps if x is not a):
@@ -713,9 +728,10 @@ def rule_emptyread(ctx):
                 yield ob(R, f, "%s:%s" % (f.qual, pname), True, "reviewed: %s" % EMPTYREAD_REVIEWED[f.qual], node=sts[0][0].node)
             else:
                 yield ob(R, f, "%s:%s" % (f.qual, pname), not bad, why_ok or "no positional read", node=sts[0][0].node) if not bad else ob(R, f, "%s:%s" % (f.qual, pname), False, "reads %s with no test, validator or reviewed reason that %s is non-empty: an empty (valid, warned-about) annotation raises IndexError here" % (", ".join(sorted(set(bad))), pname), node=sts[0][0].node)
-    stale = sorted(set(EMPTYREAD_REVIEWED) - seen_funcs)
-    if stale:
-        raise AnalysisError(R, "reviewed functions no longer contain a positional read: %s" % ", ".join(stale))
+    # a reviewed function that no longer reads by position needs no review any more; one that vanished is an anchor lost
+    gone = sorted(q for q in EMPTYREAD_REVIEWED if not ctx.program.has_func(q))
+    if gone:
+        raise AnalysisError(R, "reviewed functions vanished: %s" % ", ".join(gone))
     need(n >= 10, R, "positional reads of input arrays not enumerated")
 
 
